@@ -3,6 +3,18 @@
 import json
 
 ARMED = {
+ "C06": ("component-sequence extraction of key constructors vs linear-form regions of key parsers; constant-table distinctness; persist/lock/membership checks of id allocation; borrowed-buffer escape analysis",
+         "Static decision of necessary conditions of 'storage keys isolate instances, data and versions': every key constructor yields [prefix][instance][tkey][version][client][marker] (prefix constructors a prefix), min/max version keys use the extreme ids/markers, every parser and rewriter addresses the same regions, ids are 4-byte big-endian (R6.1); TKey class constants are pairwise distinct per data type (R6.3); instance ids are tested against the live set, incremented under idMutex and persisted afterwards (R6.4); the instance key range is [prefix‖id, prefix‖(id+1)) (R6.5); iterator-owned key buffers are never retained by a write batch (R6.6); the versioned scanner's bounds are instance-scoped context keys tested for every key (R6.7). Level 'other': injectivity for datum keys containing terminator bytes and history-level isolation are not decided; id+1 wrap-around at 0xFFFFFFFF is not modelled.",
+         "Trusts go/ssa; integer wrap-around not modelled.",
+         "DESIGN.md §2 C06"),
+ "C15": ("SCCP-restricted path search for checksum must-pass-through; shift/mask tuple and offset/endianness agreement between writer and reader; switch-constant set comparison; linear-form guarded-slice analysis; error-propagation path search",
+         "Static decision of necessary conditions of 'the serialization envelope round-trips and detects corruption': with a CRC32-protected value every success exit of DeserializeData lies behind the stored-vs-recomputed comparison whose mismatch edge is an error (R15.1); format-byte bit fields, CRC offset/width/endianness and the LZ4 length prefix agree between serialiser and deserialiser (R15.2); both sides handle the same compression and checksum constants (R15.3); every slice/index/type assertion on input-derived data is guarded, every decoder error reaches an error exit, and the LZ4 raw-copy fallback is taken only for a zero prefix (R15.4). Level 'other': decompress∘compress identity of the third-party codecs and CRC strength are not decided.",
+         "Trusts snappy/lz4/gzip/jpeg libraries; integer overflow not modelled.",
+         "DESIGN.md §2 C15"),
+ "C20": ("route-table containment check; linear-form guarded-slice analysis of the payload parsers; call-graph reachability of process-terminating calls; acquire/release path search for throttle slots; nil-without-error contract check before channel hand-off; size-gate dominance before worker fan-out; SCCP path search 'parse error ⇒ no storage write'",
+         "Static decision of necessary conditions of 'no request can crash or wedge the server; malformed ones are rejected harmlessly': every API mux has a recover middleware and the sync-event loops recover (R20.1); the enumerated payload parsers guard every input-derived slice/index (R20.2); no process-terminating call is reachable from any handler except five same-package-invariant sites (R20.3); a taken throttle slot is released on every exit (R20.4); possibly-nil results are tested before being handed to worker goroutines (R20.6); voxel write entry points validate the payload size before starting workers (R20.7); after any of 224 parsing calls has failed no storage write is reachable in that function (R20.8). Level 'other': panics from arithmetic inside codecs on well-formed-but-hostile values, memory exhaustion and liveness in general are not decided.",
+         "Trusts go/ssa and the VTA call graph; integer overflow not modelled; goroutines without parsers are not examined.",
+         "DESIGN.md §2 C20"),
  "C03": ("AST gob writer/reader sequence comparison; save-after-store must-pass-through with caller-chain lifting over the call graph; log writer/replay registry agreement; at-most-once path search for accumulating records",
          "Static decision of necessary conditions of 'a restart changes nothing observable': every GobEncode/GobDecode pair agrees on the ordered types and fields (R3.1); every change of a persisted field of repoT/nodeT/dagT/datastore.Data is followed by the repo save on every success exit of the function or of every caller chain (R3.3); every live mapping change is logged with a record type the replay applies, every replayed type has a live writer, accumulating record types are logged once per operation and each version's log is replayed under that version (R3.5); rebuild hooks are implemented and invoked (R3.6); id/label/mutation-id counters are persisted after every change (R3.7). Level 'other': equality of rebuilt state with live state for every history is value-level and not decided.",
          "Trusts encoding/gob, go/ssa, VTA; RPC-only repo surgery (push/flatten/limit) is outside the claim (exceptions table).",
